@@ -613,3 +613,738 @@ var (
 	_ = io.EOF
 	_ parquet.Node
 )
+
+// ---------------------------------------------------------------------------
+// Part 2: generators
+
+type gen struct {
+	c     *core.Ctx
+	names []string // name pool shared with the shredding schemas
+}
+
+var unicodeBits = []string{"é", "ß", "λ", "Ж", "中", "日本", "😀", "\u0000", "~", " ", "a", "Z", "0", "_", "-"}
+
+func (g *gen) str(n int) []byte {
+	// valid UTF-8 of exactly n bytes
+	var b []byte
+	for len(b) < n {
+		s := unicodeBits[g.c.Rng.Intn(len(unicodeBits))]
+		if g.c.Rng.Intn(3) > 0 {
+			s = string(rune('a' + g.c.Rng.Intn(26)))
+		}
+		if len(b)+len(s) <= n {
+			b = append(b, s...)
+		}
+	}
+	return b
+}
+
+var strLens = []int{0, 1, 2, 5, 62, 63, 64, 65, 80}
+
+func (g *gen) name() string {
+	r := g.c.Rng
+	switch r.Intn(10) {
+	case 0, 1, 2, 3, 4:
+		return g.names[r.Intn(len(g.names))]
+	case 5:
+		return ""
+	case 6:
+		return string(g.str(1 + r.Intn(70)))
+	default:
+		return string(g.str(1 + r.Intn(4)))
+	}
+}
+
+var edge64 = []int64{0, 1, -1, 127, -128, 128, 255, 256, 32767, -32768, 65535, 1 << 31, -1 << 31, 1<<31 - 1, math.MaxInt64, math.MinInt64, 999999999, -999999999, 1000000000, 999999999999999999, 1000000000000000000}
+
+func (g *gen) int64v(width int) int64 {
+	r := g.c.Rng
+	var v int64
+	if r.Intn(2) == 0 {
+		v = edge64[r.Intn(len(edge64))]
+	} else {
+		v = int64(r.Uint64()) >> uint(r.Intn(64))
+	}
+	switch width {
+	case 1:
+		return int64(int8(v))
+	case 2:
+		return int64(int16(v))
+	case 4:
+		return int64(int32(v))
+	}
+	return v
+}
+
+var f32bits = []uint32{0, 0x80000000, 0x7f800000, 0xff800000, 0x7fc00000, 0x7fc00001, 0xffc12345, 1, 0x807fffff, 0x3f800000, 0x7f7fffff}
+var f64bits = []uint64{0, 1 << 63, 0x7ff0000000000000, 0xfff0000000000000, 0x7ff8000000000000, 0x7ff0000000000001, 0xfff8000000000123, 1, 0x3ff0000000000000, 0x7fefffffffffffff}
+
+func (g *gen) prim() *tree {
+	r := g.c.Rng
+	switch r.Intn(13) {
+	case 0:
+		return &tree{Kind: 'n'}
+	case 1:
+		return &tree{Kind: "tf"[r.Intn(2)]}
+	case 2, 3, 4:
+		k := r.Intn(10)
+		return &tree{Kind: 'i', K: k, I: g.int64v(intWidth[k])}
+	case 5:
+		// float32: signalling NaNs are excluded (variant.Value keeps float32 as
+		// float64, the conversion quiets them; reported separately)
+		var u uint32
+		if r.Intn(2) == 0 {
+			u = f32bits[r.Intn(len(f32bits))]
+		} else {
+			u = r.Uint32()
+		}
+		if u&0x7f800000 == 0x7f800000 && u&0x007fffff != 0 {
+			u |= 0x00400000
+		}
+		return &tree{Kind: 'r', K: 0, U: uint64(u)}
+	case 6:
+		if r.Intn(2) == 0 {
+			return &tree{Kind: 'r', K: 1, U: f64bits[r.Intn(len(f64bits))]}
+		}
+		return &tree{Kind: 'r', K: 1, U: r.Uint64()}
+	case 7:
+		k := r.Intn(3)
+		sc := byte([]int{0, 2, 2, 2, 3, 9, 38, 255}[r.Intn(8)])
+		if k == 2 {
+			d := make([]byte, 16)
+			switch r.Intn(4) {
+			case 0:
+				r.Read(d)
+			case 1:
+				binary.LittleEndian.PutUint64(d, uint64(g.int64v(8)))
+				if d[7]&0x80 != 0 {
+					for i := 8; i < 16; i++ {
+						d[i] = 0xff
+					}
+				}
+			case 2:
+				// +-(10^38 - 1), 10^38
+				z := new(big.Int).Exp(big.NewInt(10), big.NewInt(38), nil)
+				if r.Intn(2) == 0 {
+					z.Sub(z, big.NewInt(1))
+				}
+				if r.Intn(2) == 0 {
+					z.Neg(z)
+				}
+				d = d16FromBig(z)
+			default:
+				d[15] = 0x80 // minimum
+			}
+			return &tree{Kind: 'd', K: 2, Scale: sc, D: d}
+		}
+		return &tree{Kind: 'd', K: k, Scale: sc, I: g.int64v([]int{4, 8}[k])}
+	case 8:
+		d := make([]byte, []int{0, 1, 16, 20, 63, 64, 100}[r.Intn(7)])
+		r.Read(d)
+		return &tree{Kind: 'b', D: d}
+	case 9, 10, 11:
+		n := strLens[r.Intn(len(strLens))]
+		if r.Intn(3) == 0 {
+			n = r.Intn(90)
+		}
+		return &tree{Kind: 's', D: g.str(n)}
+	default:
+		d := make([]byte, 16)
+		r.Read(d)
+		return &tree{Kind: 'u', D: d}
+	}
+}
+
+// nativePrim: kinds the typed API writes without changing their type.
+func (g *gen) nativePrim() *tree {
+	for {
+		if t := g.prim(); t.native() {
+			return t
+		}
+	}
+}
+
+func (g *gen) tree(depth int, native bool) *tree {
+	r := g.c.Rng
+	if depth > 0 && r.Intn(5) < 2 {
+		if r.Intn(2) == 0 {
+			t := &tree{Kind: '['}
+			n := []int{0, 1, 2, 3, 4, 6}[r.Intn(6)]
+			for i := 0; i < n; i++ {
+				t.Elems = append(t.Elems, g.tree(depth-1, native))
+			}
+			return t
+		}
+		t := &tree{Kind: '{'}
+		n := []int{0, 1, 2, 3, 4, 7}[r.Intn(6)]
+		seen := map[string]bool{}
+		for i := 0; i < n; i++ {
+			nm := g.name()
+			if seen[nm] {
+				continue
+			}
+			seen[nm] = true
+			t.Names = append(t.Names, nm)
+			t.Elems = append(t.Elems, g.tree(depth-1, native))
+		}
+		return t
+	}
+	if native {
+		return g.nativePrim()
+	}
+	return g.prim()
+}
+
+func keyName(i int) string { return fmt.Sprintf("k%03d", i) }
+
+// boundary trees: element counts 0,1,255,256 and payload sizes 255,256,65535,65536
+// (the 1/2/3-byte offset thresholds and is_large), wide dictionaries.
+func (g *gen) boundaries() []*tree {
+	var out []*tree
+	small := func(i int) *tree {
+		switch i % 3 {
+		case 0:
+			return &tree{Kind: 'i', K: 0, I: int64(int8(i))}
+		case 1:
+			return &tree{Kind: 'n'}
+		}
+		return &tree{Kind: 's', D: []byte{byte('a' + i%26)}}
+	}
+	for _, n := range []int{0, 1, 2, 254, 255, 256, 257} {
+		a := &tree{Kind: '['}
+		o := &tree{Kind: '{'}
+		for i := 0; i < n; i++ {
+			a.Elems = append(a.Elems, small(i))
+			o.Names = append(o.Names, keyName((i*7)%n)) // unsorted insertion order, distinct (7 coprime to n unless n%7==0)
+			o.Elems = append(o.Elems, small(i))
+		}
+		if !o.wellFormed() {
+			for i := range o.Names {
+				o.Names[i] = keyName(n - 1 - i)
+			}
+		}
+		out = append(out, a, o)
+	}
+	// payload of the container = target bytes exactly, with 1..3 elements
+	for _, target := range []int{254, 255, 256, 257, 65534, 65535, 65536, 65537} {
+		for variantNo := 0; variantNo < 3; variantNo++ {
+			var elems []*tree
+			rest := target
+			if variantNo >= 1 {
+				elems = append(elems, &tree{Kind: 'i', K: 0, I: 5}) // 2 bytes
+				rest -= 2
+			}
+			if variantNo == 2 {
+				elems = append(elems, &tree{Kind: 's', D: g.str(10)}) // 11 bytes
+				rest -= 11
+			}
+			// a binary of length L encodes to 5+L bytes
+			d := make([]byte, rest-5)
+			g.c.Rng.Read(d)
+			elems = append(elems, &tree{Kind: 'b', D: d})
+			a := &tree{Kind: '[', Elems: elems}
+			o := &tree{Kind: '{'}
+			for i, e := range elems {
+				o.Names = append(o.Names, []string{"z", "m", "a"}[i])
+				o.Elems = append(o.Elems, e)
+			}
+			out = append(out, a, o, &tree{Kind: '[', Elems: []*tree{o, a}})
+		}
+	}
+	// strings around the short-string limit, alone and as elements
+	for _, n := range []int{0, 1, 62, 63, 64, 65, 127, 128, 255, 256} {
+		s := &tree{Kind: 's', D: g.str(n)}
+		out = append(out, s, &tree{Kind: '[', Elems: []*tree{s, s}}, &tree{Kind: '{', Names: []string{string(g.str(n))}, Elems: []*tree{s}})
+	}
+	// dictionary wider than 255 entries, then small objects using high ids:
+	// field_id_size 2 with offset_size 1
+	for _, n := range []int{255, 256, 257, 300} {
+		wide := &tree{Kind: '{'}
+		for i := 0; i < n; i++ {
+			wide.Names = append(wide.Names, keyName(i))
+			wide.Elems = append(wide.Elems, &tree{Kind: 'n'})
+		}
+		smallObj := &tree{Kind: '{', Names: []string{keyName(n - 1)}, Elems: []*tree{{Kind: 't'}}}
+		two := &tree{Kind: '{', Names: []string{keyName(n - 1), keyName(0)}, Elems: []*tree{{Kind: 't'}, {Kind: 'i', K: 1, I: 300}}}
+		out = append(out, &tree{Kind: '[', Elems: []*tree{wide, smallObj, two}})
+	}
+	// dictionary string bytes crossing 255/256 and 65535/65536 (metadata offset size)
+	for _, total := range []int{254, 255, 256, 257, 65535, 65536} {
+		o := &tree{Kind: '{'}
+		left := total
+		for i := 0; left > 0; i++ {
+			n := 200
+			if total > 1000 {
+				n = 8000
+			}
+			if n > left {
+				n = left
+			}
+			nm := []byte(fmt.Sprintf("%04d", i))
+			for len(nm) < n {
+				nm = append(nm, 'x')
+			}
+			nm = nm[:n]
+			if n < 4 {
+				nm = []byte("~~~~")[:n]
+			}
+			o.Names = append(o.Names, string(nm))
+			o.Elems = append(o.Elems, &tree{Kind: 'n'})
+			left -= n
+		}
+		if o.wellFormed() {
+			out = append(out, o)
+		}
+	}
+	// sorted / unsorted dictionaries through nesting order
+	mk := func(names ...string) *tree {
+		o := &tree{Kind: '{'}
+		for _, n := range names {
+			o.Names = append(o.Names, n)
+			o.Elems = append(o.Elems, &tree{Kind: 'n'})
+		}
+		return o
+	}
+	out = append(out, mk("a", "b", "c"), mk("c", "b", "a"), mk("a", "ab", "b"), mk("b", "a"), mk("", "a"), mk("a", ""),
+		&tree{Kind: '{', Names: []string{"a", "c"}, Elems: []*tree{mk("b"), mk("d", "a")}},
+		&tree{Kind: '[', Elems: []*tree{mk("a", "b"), mk("b", "a"), mk("é", "z", "中")}})
+	// depth 5 nest
+	deep := &tree{Kind: 'i', K: 2, I: 7}
+	for i := 0; i < 5; i++ {
+		if i%2 == 0 {
+			deep = &tree{Kind: '[', Elems: []*tree{deep, {Kind: 'n'}}}
+		} else {
+			deep = &tree{Kind: '{', Names: []string{"x", "a"}, Elems: []*tree{deep, {Kind: 's', D: []byte("v")}}}
+		}
+	}
+	out = append(out, deep)
+	return out
+}
+
+// ---------------------------------------------------------------------------
+// Part 3: Encode / Decode / Marshal / Unmarshal against the tree and the model
+
+type encReplay struct {
+	Mode string `json:"mode"` // "encode"
+	Tree string `json:"tree"`
+}
+
+func goEncode(t *tree) (meta, val []byte, err error) {
+	defer func() {
+		if r := recover(); r != nil {
+			err = fmt.Errorf("panic: %v", r)
+		}
+	}()
+	var b variant.MetadataBuilder
+	val = variant.Encode(&b, t.toValue())
+	_, meta = b.Build()
+	if val == nil {
+		err = fmt.Errorf("Encode returned nil")
+	}
+	return
+}
+
+func goDecode(meta, val []byte) (t *tree, err error) {
+	defer func() {
+		if r := recover(); r != nil {
+			err = fmt.Errorf("panic: %v", r)
+		}
+	}()
+	m, err := variant.DecodeMetadata(meta)
+	if err != nil {
+		return nil, err
+	}
+	v, err := variant.Decode(m, val)
+	if err != nil {
+		return nil, err
+	}
+	return fromValue(v), nil
+}
+
+// checkEncode runs one tree through Encode/Decode (and Marshal/Unmarshal when
+// the tree is native) and the model.  Reports through c; returns nothing:
+// callers use c.Probe to learn whether it failed.
+func checkEncode(c *core.Ctx, t *tree) {
+	rp := encReplay{Mode: "encode", Tree: t.text()}
+	want := t.canonText()
+	meta, val, err := goEncode(t)
+	if err != nil {
+		c.Violation("encode-error", "variant.Encode failed on a well-formed value: "+err.Error(), rp)
+		return
+	}
+	ok := true
+	// predicate: Decode(Encode(v)) == v
+	got, err := goDecode(meta, val)
+	switch {
+	case err != nil:
+		c.Violation("decode-of-encode-error", "variant.Decode rejects the bytes variant.Encode produced: "+err.Error(), rp)
+		ok = false
+	case got.canonText() != want:
+		c.Violation("decode-of-encode-differs", "Decode(Encode(v)) != v: got "+core.Trunc(got.canonText(), 300)+" want "+core.Trunc(want, 300), rp)
+		ok = false
+	}
+	// model bytes == Go bytes
+	if c.HasOracle() {
+		ans := c.Ask("c19.encode " + t.text())
+		impl := core.Hexs(meta) + " " + core.Hexs(val)
+		if ans != impl {
+			// is the difference visible to an independent reader? the model decoder on Go's bytes
+			back := c.Ask("c19.decode " + core.Hexs(meta) + " " + core.Hexs(val))
+			if back != want && ok {
+				c.Violation("encode-bytes-not-decodable-by-spec", "a decoder written from the specification does not read the value back from Encode's bytes: got "+core.Trunc(back, 300)+" want "+core.Trunc(want, 300), rp)
+				ok = false
+			}
+			if ok {
+				c.Mismatch("corr:C19.encode", "c19.encode "+t.text(), impl, ans, rp)
+			}
+			ok = false
+		} else {
+			back := c.Ask("c19.decode " + core.Hexs(meta) + " " + core.Hexs(val))
+			if back != want {
+				c.Mismatch("corr:C19.decode", "c19.decode of Encode's bytes", want, back, rp)
+				ok = false
+			}
+		}
+	}
+	if !ok {
+		return
+	}
+	// Marshal / Unmarshal of the Go value
+	if t.native() {
+		func() {
+			defer func() {
+				if r := recover(); r != nil {
+					c.Violation("marshal-panic", fmt.Sprint(r), rp)
+				}
+			}()
+			x := t.goAny()
+			m2, v2, err := variant.Marshal(x)
+			if err != nil {
+				c.Violation("marshal-error", err.Error(), rp)
+				return
+			}
+			y, err := variant.Unmarshal(m2, v2)
+			if err != nil {
+				c.Violation("unmarshal-of-marshal-error", err.Error(), rp)
+				return
+			}
+			if anyText(y) != anyText(x) {
+				c.Violation("unmarshal-of-marshal-differs", "Unmarshal(Marshal(x)) != x: got "+core.Trunc(anyText(y), 300)+" want "+core.Trunc(anyText(x), 300), rp)
+				return
+			}
+			if t.maxFields() <= 1 && (!bytes.Equal(m2, meta) || !bytes.Equal(v2, val)) {
+				c.Violation("marshal-encode-bytes-differ", "Marshal and Encode produce different bytes for the same value", rp)
+				return
+			}
+			if c.HasOracle() {
+				back := c.Ask("c19.decode " + core.Hexs(m2) + " " + core.Hexs(v2))
+				if back != want {
+					c.Mismatch("corr:C19.decode-marshal", "c19.decode of Marshal's bytes", want, back, rp)
+				}
+			}
+		}()
+	}
+}
+
+// ---- conforming non-canonical encodings (for the decoders) ----
+
+func putUint(b []byte, v, size int) []byte {
+	for i := 0; i < size; i++ {
+		b = append(b, byte(v>>(8*i)))
+	}
+	return b
+}
+
+func minSize(v int) int {
+	switch {
+	case v <= 0xff:
+		return 1
+	case v <= 0xffff:
+		return 2
+	case v <= 0xffffff:
+		return 3
+	}
+	return 4
+}
+
+type altEnc struct {
+	c    *core.Ctx
+	dict map[string]int
+}
+
+func (a *altEnc) pick(min int) int { return min + a.c.Rng.Intn(5-min) }
+
+func (a *altEnc) value(t *tree) []byte {
+	r := a.c.Rng
+	switch t.Kind {
+	case 's':
+		if len(t.D) <= 63 && r.Intn(2) == 0 {
+			// long form of a short string
+			b := []byte{16 << 2}
+			b = putUint(b, len(t.D), 4)
+			return append(b, t.D...)
+		}
+	case '[':
+		var encs [][]byte
+		total := 0
+		for _, e := range t.Elems {
+			x := a.value(e)
+			encs = append(encs, x)
+			total += len(x)
+		}
+		osz := a.pick(minSize(total))
+		large := len(encs) > 255 || r.Intn(3) == 0
+		h := byte(3) | byte(osz-1)<<2
+		var b []byte
+		if large {
+			b = putUint(append(b, h|1<<4), len(encs), 4)
+		} else {
+			b = append(b, h, byte(len(encs)))
+		}
+		off := 0
+		for _, x := range encs {
+			b = putUint(b, off, osz)
+			off += len(x)
+		}
+		b = putUint(b, off, osz)
+		for _, x := range encs {
+			b = append(b, x...)
+		}
+		return b
+	case '{':
+		n := len(t.Elems)
+		idx := make([]int, n)
+		for i := range idx {
+			idx[i] = i
+		}
+		sort.Slice(idx, func(x, y int) bool { return t.Names[idx[x]] < t.Names[idx[y]] })
+		encs := make([][]byte, n) // by sorted position
+		total, maxID := 0, 0
+		for p, i := range idx {
+			encs[p] = a.value(t.Elems[i])
+			total += len(encs[p])
+			if id := a.dict[t.Names[i]]; id > maxID {
+				maxID = id
+			}
+		}
+		// values stored in a random order: offsets need not be monotonic
+		order := r.Perm(n)
+		offs := make([]int, n)
+		off := 0
+		for _, p := range order {
+			offs[p] = off
+			off += len(encs[p])
+		}
+		osz := a.pick(minSize(total))
+		fsz := a.pick(minSize(maxID))
+		large := n > 255 || r.Intn(3) == 0
+		h := byte(2) | byte(osz-1)<<2 | byte(fsz-1)<<4
+		var b []byte
+		if large {
+			b = putUint(append(b, h|1<<6), n, 4)
+		} else {
+			b = append(b, h, byte(n))
+		}
+		for _, i := range idx {
+			b = putUint(b, a.dict[t.Names[i]], fsz)
+		}
+		for p := range idx {
+			b = putUint(b, offs[p], osz)
+		}
+		b = putUint(b, total, osz)
+		for _, p := range order {
+			b = append(b, encs[p]...)
+		}
+		return b
+	}
+	_, val, err := goEncode(t)
+	if err != nil {
+		panic(err)
+	}
+	return val
+}
+
+func collectNames(t *tree, set map[string]bool) {
+	for _, n := range t.Names {
+		set[n] = true
+	}
+	for _, e := range t.Elems {
+		collectNames(e, set)
+	}
+}
+
+// altEncode: a random conforming encoding of t: dictionary in a random order
+// with unused entries, wider offsets, is_large, long-form strings, shuffled
+// object values.
+func altEncode(c *core.Ctx, t *tree) (meta, val []byte) {
+	set := map[string]bool{}
+	collectNames(t, set)
+	if c.Rng.Intn(2) == 0 {
+		set["unused-"+fmt.Sprint(c.Rng.Intn(100))] = true
+	}
+	names := make([]string, 0, len(set))
+	for n := range set {
+		names = append(names, n)
+	}
+	sort.Strings(names)
+	sorted := c.Rng.Intn(2) == 0
+	if !sorted {
+		c.Rng.Shuffle(len(names), func(i, j int) { names[i], names[j] = names[j], names[i] })
+	}
+	isSorted := sort.StringsAreSorted(names)
+	a := &altEnc{c: c, dict: map[string]int{}}
+	total := 0
+	for i, n := range names {
+		a.dict[n] = i
+		total += len(n)
+	}
+	m := total
+	if len(names) > m {
+		m = len(names)
+	}
+	osz := a.pick(minSize(m))
+	h := byte(1) | byte(osz-1)<<6
+	if isSorted && c.Rng.Intn(2) == 0 {
+		h |= 1 << 4 // the flag may be left unset on a sorted dictionary
+	}
+	meta = putUint([]byte{h}, len(names), osz)
+	off := 0
+	for _, n := range names {
+		meta = putUint(meta, off, osz)
+		off += len(n)
+	}
+	meta = putUint(meta, off, osz)
+	for _, n := range names {
+		meta = append(meta, n...)
+	}
+	return meta, a.value(t)
+}
+
+func checkAltDecode(c *core.Ctx, t *tree) {
+	var meta, val []byte
+	func() {
+		defer func() { recover() }()
+		meta, val = altEncode(c, t)
+	}()
+	if val == nil {
+		return
+	}
+	rp := map[string]any{"mode": "decode", "tree": t.text(), "meta": hex.EncodeToString(meta), "value": hex.EncodeToString(val)}
+	want := t.canonText()
+	got, err := goDecode(meta, val)
+	if err != nil {
+		c.Violation("decode-rejects-conforming", "variant.Decode rejects a conforming encoding: "+err.Error(), rp)
+		return
+	}
+	if got.canonText() != want {
+		c.Violation("decode-conforming-differs", "variant.Decode of a conforming encoding: got "+core.Trunc(got.canonText(), 300)+" want "+core.Trunc(want, 300), rp)
+		return
+	}
+	if c.HasOracle() {
+		back := c.Ask("c19.decode " + core.Hexs(meta) + " " + core.Hexs(val))
+		if back != want {
+			c.Mismatch("corr:C19.decode-conforming", "c19.decode of a conforming non-canonical encoding", want, back, rp)
+		}
+	}
+}
+
+// ---- shrinking ----
+
+// shrinkTree minimises a tree for which fails holds: hoist a child, drop
+// elements / fields (halves first), replace subtrees by null, shorten strings.
+func shrinkTree(t *tree, fails func(*tree) bool) *tree {
+	cur := t
+	budget := 600
+	try := func(cand *tree) bool {
+		if budget <= 0 {
+			return false
+		}
+		budget--
+		if cand.wellFormed() && fails(cand) {
+			cur = cand
+			return true
+		}
+		return false
+	}
+	for changed := true; changed && budget > 0; {
+		changed = false
+		// hoist a child
+		for _, e := range cur.Elems {
+			if try(e) {
+				changed = true
+				break
+			}
+		}
+		if changed {
+			continue
+		}
+		if cur.Kind != 'n' && len(cur.Elems) == 0 && try(&tree{Kind: 'n'}) {
+			changed = true
+			continue
+		}
+		// drop chunks of children
+		n := len(cur.Elems)
+		for chunk := n / 2; chunk >= 1 && !changed; chunk /= 2 {
+			for lo := 0; lo+chunk <= n && !changed; lo += chunk {
+				cand := *cur
+				cand.Elems = append(append([]*tree{}, cur.Elems[:lo]...), cur.Elems[lo+chunk:]...)
+				if cur.Kind == '{' {
+					cand.Names = append(append([]string{}, cur.Names[:lo]...), cur.Names[lo+chunk:]...)
+				}
+				if try(&cand) {
+					changed = true
+				}
+			}
+		}
+		if changed {
+			continue
+		}
+		// shorten payloads and names
+		if (cur.Kind == 's' || cur.Kind == 'b') && len(cur.D) > 0 {
+			for _, k := range []int{0, len(cur.D) / 2, len(cur.D) - 1} {
+				cand := *cur
+				cand.D = bytes.Repeat([]byte{'a'}, k)
+				if try(&cand) {
+					changed = true
+					break
+				}
+			}
+			if changed {
+				continue
+			}
+		}
+		// shrink children in place
+		for i, e := range cur.Elems {
+			if e.Kind == 'n' {
+				continue
+			}
+			base := cur
+			sub := shrinkTree(e, func(x *tree) bool {
+				if budget <= 0 {
+					return false
+				}
+				budget--
+				cand := *base
+				cand.Elems = append([]*tree{}, base.Elems...)
+				cand.Elems[i] = x
+				return cand.wellFormed() && fails(&cand)
+			})
+			if sub != e {
+				cand := *base
+				cand.Elems = append([]*tree{}, base.Elems...)
+				cand.Elems[i] = sub
+				cur = &cand
+				changed = true
+			}
+		}
+	}
+	return cur
+}
+
+func runEncodeCase(c *core.Ctx, t *tree, bucket string) {
+	if c.Probe(func() { checkEncode(c, t) }) {
+		min := shrinkTree(t, func(x *tree) bool { return c.Probe(func() { checkEncode(c, x) }) })
+		checkEncode(c, min)
+	}
+	c.Case(bucket, t.text(), t.Kind == '[' || t.Kind == '{' || t.Kind == 's')
+}
